@@ -2394,7 +2394,11 @@ func (a *Agent) TaskDispatch(RequestID uint32, CommandID uint32, Parser *parser.
 
 				a.Active = true
 
-				a.NameID = fmt.Sprintf("%08x", DemonID)
+				// an agent's id never changes after registration: ignore a check-in that names another id
+				if fmt.Sprintf("%08x", DemonID) != a.NameID {
+					logger.Debug(fmt.Sprintf("Agent: %x, Command: COMMAND_CHECKIN, DemonID %x does not match the session id", AgentID, DemonID))
+					break
+				}
 				a.Info.FirstCallIn = a.Info.FirstCallIn
 				a.Info.LastCallIn = a.Info.LastCallIn
 				a.Info.Hostname = Hostname
